@@ -186,6 +186,22 @@ def m_frank_wolfe(rng, a):
     return best
 
 
+def m_sgd(rng, a):
+    """one SGD step in expectation over n quadratics whose gradients at the common minimiser have mean 0 and
+    mean squared norm v^2"""
+    L, mu, gam, v, R, n = a["L"], a["mu"], a["gamma"], a["v"], a["R"], a["n"]; best = 0.0
+    for dim in (1, 3):
+        As = [spd(rng, mu, L, dim) if dim > 1 else np.array([[rng.choice([mu, L])]]) for _ in range(n)]
+        gs = rng.normal(size=(n, dim)); gs -= gs.mean(axis=0)              # sum of gradients at x* is zero
+        sc = math.sqrt(np.mean((gs ** 2).sum(axis=1)))
+        if sc > 0: gs *= v / sc
+        xs = rng.normal(size=dim)
+        grads = [lambda x, A=A, g=g: A @ (x - xs) + g for A, g in zip(As, gs)]
+        x0 = xs + R * unit(rng, dim)
+        best = max(best, float(np.mean([((x0 - gam * g(x0) - xs) ** 2).sum() for g in grads])))
+    return best
+
+
 METHODS = [
     ("unconstrained_convex_minimization.gradient_descent", "wc_gradient_descent", m_gradient_descent,
      lambda r: (lambda L: dict(L=L, gamma=r.choice([1.0, 0.5, 1.5, 0.25]) / L, n=r.randint(1, 5)))(r.choice([1.0, 2.0, 0.5]))),
@@ -199,11 +215,13 @@ METHODS = [
      lambda r: (lambda M, n: dict(M=M, n=n, gamma=r.choice([1.0, 0.5, 2.0]) / (M * math.sqrt(n + 1))))(r.choice([1.0, 2.0]), r.randint(1, 6))),
     ("fixed_point_problems.halpern_iteration", "wc_halpern_iteration", m_halpern, lambda r: dict(n=r.randint(1, 8))),
     ("fixed_point_problems.krasnoselskii_mann_constant_step_sizes", "wc_krasnoselskii_mann_constant_step_sizes", m_km,
-     lambda r: dict(n=r.randint(1, 8), gamma=r.choice([0.5, 0.75, 0.9, 0.97, 0.3, 1.0]))),
+     lambda r: dict(n=r.randint(1, 8), gamma=r.choice([0.5, 0.75, 0.9, 0.97, 0.6, 1.0]))),
     ("unconstrained_convex_minimization.proximal_point", "wc_proximal_point", m_proximal_point,
      lambda r: dict(gamma=r.choice([0.1, 1.0, 3.0]), n=r.randint(1, 5))),
     ("composite_convex_minimization.proximal_gradient", "wc_proximal_gradient", m_proximal_gradient,
      lambda r: (lambda L: dict(L=L, mu=0.1 * L, gamma=r.choice([1.0, 0.5, 1.5]) / L, n=r.randint(1, 3)))(r.choice([1.0, 2.0]))),
+    ("stochastic_and_randomized_convex_minimization.sgd", "wc_sgd", m_sgd,
+     lambda r: (lambda L: dict(L=L, mu=0.1 * L, gamma=1 / L, v=r.choice([1.0, 2.0, 3.0, 0.5]), R=r.choice([1.0, 0.5, 2.0]), n=r.randint(2, 3)))(r.choice([1.0, 2.0]))),
     ("composite_convex_minimization.frank_wolfe", "wc_frank_wolfe", m_frank_wolfe,
      lambda r: dict(L=r.choice([1.0, 2.0]), D=r.choice([1.0, 2.0]), n=r.randint(1, 5))),
 ]
@@ -225,7 +243,8 @@ def c09_runs(n, seed, procs):
         desc = dict(method=nm, args=a)
         distinct.add(nm + json.dumps(a, sort_keys=True))
         if r["err"]:
-            if "SolverError" in r["err"]: continue
+            # SolverError: inconclusive; ValueError/AssertionError: the example rejects the tuple (outside its documented range)
+            if any(k in r["err"] for k in ("SolverError", "ValueError", "AssertionError")): continue
             fails.append(dict(what="%s raises %s" % (nm, r["err"]), oracle="c09_runs", input=desc, tags=["c09"])); continue
         tau = r["pepit"]
         if tau is None: continue            # no finite guarantee claimed for this setting
